@@ -21,7 +21,7 @@ using namespace nodesim;
 
 namespace {
 
-enum { OP_CRASH = 100, OP_PRUNE = 101 };
+enum { OP_CRASH = 100, OP_PRUNE = 101, OP_IOFAULT = 102 };
 
 // Records which blocks became the tip, stamped with the I/O log index at which the harness operation that connected
 // them STARTED. (ConnectTip flushes the coins view - possibly all the way to disk - before it calls SetTip and long before
@@ -44,6 +44,10 @@ std::string Describe(const Op& op)
         return b;
     }
     if (op.kind == OP_PRUNE) return "pruneblockchain(height#" + std::to_string(op.arg(0)) + ")";
+    if (op.kind == OP_IOFAULT) {
+        static const char* k[] = {"ENOSPC on write", "EIO on write", "EIO on fsync/fdatasync", "ENOSPC on posix_fallocate"};
+        return std::string("FAULT ") + k[op.mod(0, 4)] + " at the " + std::to_string(op.mod(1, 400)) + "-th next such call";
+    }
     return DescribeChainOp(op);
 }
 
@@ -96,6 +100,14 @@ Plan Gen(uint64_t seed, Tier tier)
             continue;
         }
         p.ops.push_back(op);
+    }
+    if (rng.chance(1, 4) && !p.ops.empty()) {
+        // storage-fault configuration (kept apart from the fault-free ones by this knob)
+        p.knobs["io_faults"] = 1;
+        Op f;
+        f.kind = OP_IOFAULT;
+        f.a = {(int64_t)rng.below(4), (int64_t)rng.skewed(0, 120)};
+        p.ops.insert(p.ops.begin() + rng.below(p.ops.size()), f);
     }
     if (tier == Tier::THOROUGH && rng.chance(1, 3)) {
         p.knobs["enumerate"] = 1;
@@ -274,7 +286,10 @@ struct CrashSim {
         };
         // TipIdx() needs a running node; for the clean-restart hook the node is stopped, so remember the tip separately
         int last_tip = 0;
-        cs.on_full_flush = [&](int) { flush_marks.emplace_back(simfs::LogSize(), cs.node->Running() ? cs.TipIdx() : last_tip); };
+        cs.on_full_flush = [&](int) {
+            if (cs.node->Fatal()) return; // the flush reported an error (injected I/O fault): it did not complete
+            flush_marks.emplace_back(simfs::LogSize(), cs.node->Running() ? cs.TipIdx() : last_tip);
+        };
         cs.Setup();
         {
             LOCK(cs_main);
@@ -285,14 +300,44 @@ struct CrashSim {
         // reorganizing or pruning; the one-time creation of the data directory and databases is outside it.
         const size_t k0 = simfs::LogSize();
         std::vector<Op> crashes;
+        bool io_fault_stopped = false;
         for (const Op& op : ctx.plan.ops) {
             if (op.kind == OP_CRASH) { crashes.push_back(op); continue; }
             if (op.kind == OP_INVALIDATE || op.kind == OP_RECONSIDER) continue;
+            if (op.kind == OP_IOFAULT) {
+                // storage fault: the n-th next write / sync / fallocate fails with ENOSPC or EIO (armed once per run)
+                static const simfs::FaultKind kinds[] = {simfs::FaultKind::ENOSPC_WRITE, simfs::FaultKind::EIO_WRITE, simfs::FaultKind::EIO_SYNC, simfs::FaultKind::ENOSPC_FALLOC};
+                if (!simfs::FaultFired()) simfs::SetFault(kinds[op.mod(0, 4)], (uint64_t)op.mod(1, 400));
+                continue;
+            }
             last_tip = std::max(0, cs.TipIdx());
             op_start = simfs::LogSize();
-            cs.ExecOp(op);
+            try {
+                cs.ExecOp(op);
+            } catch (const sim::Violation& v) {
+                // After an injected I/O error the node is expected to stop with a fatal/flush error (or a failed restart);
+                // what it leaves on disk is then judged exactly like a process kill at this point.
+                if (!simfs::FaultFired() || (v.cls != "node-fatal-error" && v.cls != "restart-failed")) throw;
+                ctx.fault("io_error_node_stopped");
+                ctx.evf("node stopped after injected I/O error: %s", v.cls.c_str());
+                io_fault_stopped = true;
+                break;
+            }
+            if (simfs::FaultFired() && !io_fault_stopped) {
+                // the error may also surface as a notification without the operation failing: stop like the real node would
+                if (cs.node->Fatal()) { ctx.fault("io_error_node_stopped"); io_fault_stopped = true; break; }
+                ctx.probe("io_error_absorbed_by_operation");
+            }
         }
+        simfs::ClearFault();
         end = simfs::LogSize();
+        if (io_fault_stopped) {
+            // the stop itself is the crash: recover from the kill image at the end of the log (plus the seeded points before it)
+            Op stop;
+            stop.kind = OP_CRASH;
+            stop.a = {0, (int64_t)(end >= k0 ? end - k0 : 0), 0, 0, 0, 0};
+            crashes.push_back(stop);
+        }
         if (simfs::OpsFromOtherThreads()) ctx.probe("io_from_background_thread", simfs::OpsFromOtherThreads());
         ctx.probe("io_ops_recorded", end);
         // stop the live node without flushing (its state does not matter any more) and stop recording
@@ -387,7 +432,7 @@ Engine MakeEngine()
     e.stub_components = {"disk and page cache (simfs: recorded pass-through to tmpfs; crash = log cut + rebuild)", "process crash (never a real kill)", "peers", "clock (SetMockTime)", "LevelDB background compaction thread: real, not scheduled by the simulator (counted by probe io_from_background_thread)"};
     e.assumptions = {"power-loss model: a suffix of not-yet-synced operations is discarded; an fsync/fdatasync of an inode makes all its earlier writes and its directory entry durable; rename/unlink/mkdir become durable with an fsync of the parent directory; torn writes only at 512-byte boundaries of an unsynced append",
                      "RefChain model is correct (see C08)", "oracle (3) uses the tip at the last forced full flush (or clean shutdown) that returned before the crash index"};
-    e.expected_probes = {"recoveries", "crash_kill", "crash_powerloss", "torn_write", "unsynced_ops_dropped", "rolled_forward_from_stored_blocks", "redelivered_after_recovery", "reorg", "clean_restart", "torn_coins_flush_left", "replay_needs_rollback"};
+    e.expected_probes = {"recoveries", "crash_kill", "crash_powerloss", "torn_write", "unsynced_ops_dropped", "rolled_forward_from_stored_blocks", "redelivered_after_recovery", "reorg", "clean_restart", "torn_coins_flush_left", "replay_needs_rollback", "io_error_node_stopped"};
     return e;
 }
 Engine g_engine = MakeEngine();
